@@ -224,7 +224,10 @@ SWEEP_OPS = [
     ['set', 1, 'A'], ['set', 3, 'B'], ['get', 1], ['get', 3], ['getd', 3, 'dflt'], ['setdefault', 3, 'C'],
     ['del', 1], ['pop', 2], ['popitem'], ['clear'], ['update', [[3, 'D'], [1, 'E']], 'pairs'],
     ['ior', [[3, 'F']]], ['in', 1], ['len'], ['dict'], ['eq', [[1, 'p0'], [2, 'p1']]], ['copy'],
-    ['update', [[3, 'G']], 'both', [['kw', 'H']]], ['ne', [[2, 'p1'], [3, 'B']]],
+    # (the operand of != is the state *between* the eviction and the insertion of an evicting insert into the
+    # preloaded cache: a comparison that reads the cache without the lock answers False there, and True in every
+    # sequential order)
+    ['update', [[3, 'G']], 'both', [['kw', 'H']]], ['ne', [[2, 'p1']]],
     ['update_rmw', [1, 3], 'R'],
 ]
 _FIXED = {}
